@@ -1,2 +1,15 @@
-(* C07 statements: being extended *)
-From Morph Require Import Base.UStr.
+(* C07 — referencing object maps implement the relational inner equi-join.  Statements only. *)
+From Morph Require Import Base.UStr Model.Terms Model.Data Model.Engine Model.Mapping Model.Spec Proofs.JoinP.
+
+(* the engine's merge (pandas index join for one condition, merge for several: the same relation in the model) holds
+   exactly one row per pair of child and parent rows that agree on ALL join conditions -- duplicate keys on either side
+   give the full cross product of the matches, unmatched rows give nothing *)
+Theorem merge_is_inner_equijoin : forall child parent conds m, merge_data child parent conds = Ok m ->
+  forall x, In x m <-> exists c p, In c child /\ In p parent /\ joins c p conds /\ x = c ++ add_prefix parent_prefix p.
+Proof. exact merge_is_equijoin. Qed.
+Print Assumptions merge_is_inner_equijoin.
+(* the specification's join: a parent row is joined iff every condition compares two non-null equal values *)
+Theorem spec_join_rows : forall cfg tables child src conds p, conds <> [] ->
+  (In p (joined_rows cfg tables child src conds) <-> In p (tables src) /\ conds_hold cfg child p conds = true).
+Proof. exact joined_rows_spec. Qed.
+Print Assumptions spec_join_rows.
